@@ -197,18 +197,29 @@ Fixpoint route_of (k : str) (l : list (slot * (str * str))) : option (slot * str
 
 (* every custom attribute, at its last setting, sits in exactly one place with its value: a routed
    name in its dedicated slot (as a string) and not under extra, any other name under extra *)
+(* values a string-valued slot can carry: strings, and numbers / booleans as their text.  A list, a
+   map or null cannot be rendered into a tag/context string without loss. *)
+Definition scalarb (v : json) : bool := match v with JStr _ | JNum _ | JBool _ => true | _ => false end.
+Definition absent (o : option json) : bool := match o with None => true | Some _ => false end.
 Fixpoint attrs_conserved (ev : list (str * json)) (l : list (str * json)) : bool :=
   match l with
   | [] => true
   | (k, v) :: r =>
       (if has_key k r then true
        else match route_of k spec_routes with
-            | Some (sl, name) => opt_json_eqb (slot_get ev sl name) (JStr (to_qstring v))
-                                 && match get2 ev k_extra k with None => true | Some _ => false end
+            | Some (sl, name) =>
+                if scalarb v
+                then opt_json_eqb (slot_get ev sl name) (JStr (to_qstring v)) && absent (get2 ev k_extra k)
+                else (* intact means: the value itself, in the slot or under extra, once *)
+                     (opt_json_eqb (slot_get ev sl name) (sort_keys v) && absent (get2 ev k_extra k))
+                     || (opt_json_eqb (get2 ev k_extra k) (sort_keys v) && absent (slot_get ev sl name))
             | None => opt_json_eqb (get2 ev k_extra k) (sort_keys v)
             end)
       && attrs_conserved ev r
   end.
+(* the attribute lists for which the faithful model conserves every value: routed names carry scalars *)
+Definition routed_scalar (l : list (str * json)) : bool :=
+  forallb (fun kv => negb (is_routed (fst kv)) || scalarb (snd kv)) l.
 Definition id_ok (ev : list (str * json)) : bool :=
   match look k_event_id ev with Some (JStr s) => is_hex32 s | _ => false end.
 (* The boolean oracle, evaluated on what the implementation printed for message m *)
